@@ -3979,11 +3979,32 @@ class SFTPClient:
                 if not await dstfs.isdir(dstpath):
                     await dstfs.mkdir(dstpath)
 
+                seen_names: Set[bytes] = set()
+
                 async for srcname in srcfs.scandir(srcpath):
                     filename = cast(bytes, srcname.filename)
 
                     if filename in (b'.', b'..'):
                         continue
+
+                    # Don't let a name returned by the source refer to
+                    # something outside of the directory being copied, or
+                    # show up again after it was created as a symlink
+                    if b'/' in filename or filename in seen_names or \
+                            (sys.platform == 'win32' and b'\\' in filename):
+                        exc = SFTPBadMessage('Invalid filename in directory '
+                                             'listing')
+
+                        setattr(exc, 'srcpath', srcpath)
+                        setattr(exc, 'dstpath', dstpath)
+
+                        if error_handler:
+                            error_handler(exc)
+                            continue
+                        else:
+                            raise exc
+
+                    seen_names.add(filename)
 
                     srcfile = posixpath.join(srcpath, filename)
                     dstfile = posixpath.join(dstpath, filename)
